@@ -14,7 +14,7 @@ FLOORS = {
               'feature:extend-rule': 1000, 'feature:override-terminal': 500, 'feature:extend-terminal': 500, 'feature:imported-template': 300, 'feature:directive-reaches-composed-terminal': 150,
               'feature:module-ignore-dropped': 2500, 'feature:two-levels': 400, 'feature:underscore-names': 1000, 'feature:accepted': 4000, 'feature:rejected': 2500,
               'engine:lalr': 1500, 'engine:earley-explicit': 5000, 'engine:lalr-keep_all_tokens': 1500, 'module-edit:second-loads': 250,
-              'module-edit:inputs-judged': 8000, 'feature:module-edit-reaches-local-composed-terminal': 15},
+              'module-edit:inputs-judged': 8000, 'feature:module-edit-reaches-local-composed-terminal': 15, 'feature:rename-changes-filtering': 400},
     'thorough-unused': {'distinct_nontrivial': 40000, 'modular-grammars': 12000},
 }
 RULE = ("cases = (flat grammar F, a split of F into main + 1-2 module files with %import statements (single, multi, renaming, "
@@ -196,6 +196,8 @@ def split(rng, G):
     S1only = S - S2
     # ---- renames
     rn = {}
+    flip = {}
+    lits0 = literal_strings(G)
     for x in sorted(imported):
         if rng.random() < 0.35:
             new = ('ren_' + x[1].lstrip('_')) if x[0] == 'r' else ('REN' + x[1].lstrip('_'))
@@ -203,6 +205,13 @@ def split(rng, G):
                 new = '_' + new
             if x[0] == 't' and x[1].startswith('_'):
                 new = '_' + new
+            if (x[0] == 't' and rng.random() < 0.4 and terms[x[1]]['pat'][1] not in lits0 and not terms[x[1]].get('base')
+                    and not any(t.get('base') == x[1] for t in G['terms'])):
+                # the new name changes whether the terminal is filtered (_SEP -> SEMI, W -> _W): by hand, every occurrence
+                # of it - also those inside the module's own rules - carries the new name; the flat grammar is renamed too
+                new = new[1:] if new.startswith('_') else '_' + new
+                flip[x] = new
+                feats.add('rename-changes-filtering')
             rn[x] = new
             feats.add('rename')
     # ---- main text
@@ -334,7 +343,16 @@ def split(rng, G):
     if S2:
         files['m2.lark'] = print_module([r for r in G['rules'] if ('r', r['name']) in S2], [t for t in G['terms'] if ('t', t['name']) in S2], ['JUNK2: "^"', '%ignore JUNK2'])
     flat['alphabet'] = sorted(set(flat['alphabet']) | {'~'})
-    return {'files': files, 'main': main_text, 'flat': flat, 'flat_alt': flat_alt, 'rename': {'%s:%s' % k: v for k, v in rn.items()}, 'feats': feats, 'relative': rel}
+    for F in (flat, flat_alt):
+        if F is None:
+            continue
+        for x, new in flip.items():
+            F['rules'] = [rename_rule(r, {x: new}) for r in F['rules']]
+            for t in F['terms']:
+                if t['name'] == x[1]:
+                    t['name'] = new
+    return {'files': files, 'main': main_text, 'flat': flat, 'flat_alt': flat_alt, 'rename': {'%s:%s' % k: v for k, v in rn.items() if k not in flip}, 'feats': feats,
+            'relative': rel}
 
 
 # ------------------------------------------------------------------ comparison
